@@ -82,7 +82,7 @@ concretization dimensions the abstract structure does not have (PkgRelation.tla:
            epochs of 2 .. 19 digits with leading zeros, boundary numbers up to 10**18, 9 .. 101
            conjuncts / alternatives / arch entries / groups / terms, identical items -- in the
            replay (every 16th case, thorough 8th; big counts by repeating the case's items) and
-           in the recorder (4 % of the payloads; 10 / 60 big-count structures per run).  Tokens
+           in the recorder (4 % of the payloads; 10 / 40 big-count structures per run).  Tokens
            are class symbols with ids, so TLC's expectation is length-independent by construction.
 verdict observables: parse_relations(str(r)) == r (TLC: Inverse), no warning (NoWarning), second
            string == first string (Stable), for every call of a history (MemoTransparent); any
@@ -969,6 +969,8 @@ def spec_negative_controls(ctx, quick=False):
             continue                # thorough tier only (JVM starts dominate the quick tier)
         cfg = base.replace("%s = FALSE" % const, "%s = TRUE" % const)
         assert cfg != base
+        if const != "FormatInKeyOrder":             # one key order is enough for the other switches
+            cfg = cfg.replace("KeyOrders <- AllKeyOrders", "KeyOrders <- OneKeyOrder")
         cfg = re.sub(r"(?m)^INVARIANT (?!%s$).*\n" % inv, "", cfg)
         r = ctx.tlc("PkgRelation", cfg, workers=1, count=False, java_opts=["-XX:ParallelGCThreads=2", "-Xss64m"])
         if r.violated != inv:
@@ -1055,11 +1057,11 @@ def _replay_chunk(lines):
         for op in {a["v"]["op"] for alts in rel_abs for a in alts if a["v"]["some"]}:
             per_op[OPS[op - 1]] = per_op.get(OPS[op - 1], 0) + 1
         # quick: one concretization per case (canonical for a quarter of the cases);
-        # thorough: a random one for every case, the canonical one first for a quarter of them
+        # thorough: a random one for every case, the canonical one first for every 16th
         if quick:
             plans = [h % 4 == 0]
         else:
-            plans = [True, False] if h % 4 == 0 else [False]
+            plans = [True, False] if h % 16 == 0 else [False]
         hs = h ^ (seed * 40503)
         for canonical in plans:
             # size dimension: every 16th (thorough: 8th) non-canonical concretization has payloads of
@@ -1670,7 +1672,7 @@ def _run_parallel(ctx, quick, cfg, mc_dir, workers):
         unspecified_zone(ctx)
 
         def record_and_validate():
-            traces, metas = make_traces(ctx, *((1000, 300, 10) if quick else (8000, 2000, 60)))
+            traces, metas = make_traces(ctx, *((800, 200, 10) if quick else (6000, 1500, 40)))
             return (traces, metas) + tuple(validate(ctx, traces, True, 2 if quick else 4))
         f_val = pool.submit(record_and_validate)
         # 4. spec -> code: every CASE line, replayed while TLC is still enumerating
